@@ -90,7 +90,7 @@ def gen_kwargs(r, allow_prep):
         elif k == "weight_cp":
             kw[k] = [0, 1e-6, 3e-7, False][int(r.integers(4))]
         elif k == "gcf_k":
-            kw[k] = [1.0, .5, .6135, 2.0][int(r.integers(4))]
+            kw[k] = [1.0, .5, .6135, 2.0, .23, 1.7, .9][int(r.integers(7))]
         elif k == "method":
             kw[k] = ["leastsq", "nelder"][int(r.integers(2))]
         elif k == "optimal_fit_edelta":
